@@ -23,7 +23,7 @@ func (w *World) checkPartialContent(n *Node, st *State, phase string) {
 			prop = "C13"
 		}
 	}
-	w.violate(n, prop, cls, fmt.Sprintf("[%s, block %d, N=%d, TotalRows=%d] %s", phase, n.at, st.N, n.mp.TotalRows, det))
+	w.violate(n, prop, cls, fmt.Sprintf("[%s, block %d, N=%d, TotalRows=%d] %s", phase, n.at, st.N, n.mp.Rows(), det))
 	n.tainted = true
 }
 
@@ -32,7 +32,7 @@ func (w *World) checkPartialContent(n *Node, st *State, phase string) {
 // (their ancestors and the siblings of those).
 func (w *World) partialAllowed(n *Node, st *State) map[uint64]bool {
 	L := st.Layout()
-	T := n.mp.TotalRows
+	T := n.mp.Rows()
 	allowed := map[uint64]bool{}
 	for _, r := range L.RootsAt {
 		allowed[r.Pos(T)] = true
@@ -58,7 +58,7 @@ func (w *World) partialAllowed(n *Node, st *State) map[uint64]bool {
 func (w *World) partialMismatch(n *Node, st *State) (string, string) {
 	mp := n.mp
 	L := st.Layout()
-	T := mp.TotalRows
+	T := mp.Rows()
 	if rowsFor(st.N) > T {
 		return "totalrows-too-small", fmt.Sprintf("TotalRows %d cannot hold %d leaves", T, st.N)
 	}
@@ -66,7 +66,7 @@ func (w *World) partialMismatch(n *Node, st *State) (string, string) {
 	var cls, det string
 	var cachedList []H
 	err, _ := guard(func() error {
-		return mp.CachedLeaves.ForEach(func(h H, pos uint64) error {
+		return mp.CachedForEach(func(h H, pos uint64) error {
 			ro, ok := L.LeafAt[h]
 			if !ok {
 				if cls == "" {
@@ -88,12 +88,12 @@ func (w *World) partialMismatch(n *Node, st *State) (string, string) {
 		return cls, det
 	}
 	for _, h := range sortedKeys(n.remembered) {
-		if _, ok := mp.CachedLeaves.Get(h); !ok {
+		if _, ok := mp.CachedGet(h); !ok {
 			return "remembered-lost", fmt.Sprintf("leaf %s was to be remembered (not since deleted or pruned) but is not cached", short(h))
 		}
 	}
-	if mp.CachedLeaves.Length() != len(n.remembered) {
-		return "cached-extra", fmt.Sprintf("cache holds %d leaves, %d were asked for", mp.CachedLeaves.Length(), len(n.remembered))
+	if mp.CachedLen() != len(n.remembered) {
+		return "cached-extra", fmt.Sprintf("cache holds %d leaves, %d were asked for", mp.CachedLen(), len(n.remembered))
 	}
 	allowed := w.partialAllowed(n, st)
 	byPos := map[uint64]H{}
@@ -106,7 +106,7 @@ func (w *World) partialMismatch(n *Node, st *State) (string, string) {
 	}
 	stored := map[uint64]bool{}
 	guard(func() error {
-		return mp.Nodes.ForEach(func(pos uint64, lf u.Leaf) error {
+		return mp.NodesForEach(func(pos uint64, lf u.Leaf) error {
 			stored[pos] = true
 			if cls != "" {
 				return nil
